@@ -17,7 +17,9 @@ REPO = os.environ.get("VERIF_REPO", "/repo")
 WORK = os.environ.get("VERIF_WORK") or os.path.join(VERIF, ".work")
 SPEC = os.path.join(VERIF, "spec")
 EVID = os.path.join(VERIF, "evidence")
-HARNESS = os.path.join(VERIF, "harness")
+HARNESS_SRC = os.path.join(VERIF, "harness")
+# with VERIF_REPO pointing at another checkout, the harness is built from a copy whose path dependency points there
+HARNESS = HARNESS_SRC if REPO == "/repo" else os.path.join(WORK, "harness-copy")
 GUARD = "datatrash_mos_verif"
 MOS_TARGET = os.path.join(WORK, "target-mos")
 MOS_BIN = os.path.join(MOS_TARGET, "debug", "mos")
@@ -83,6 +85,11 @@ def _cargo_env(extra_rustflags=""):
 def build_harness(bins=None):
     """(Re)build the in-process harness against /repo's working tree (hooks on via harness/.cargo/config.toml)."""
     with _Lock("cargo-harness"):
+        if HARNESS != HARNESS_SRC:
+            os.makedirs(HARNESS, exist_ok=True)
+            subprocess.run(["rsync", "-a", "--delete", "--exclude", "target", HARNESS_SRC + "/", HARNESS + "/"], check=True)
+            ct = os.path.join(HARNESS, "Cargo.toml")
+            open(ct, "w").write(open(ct).read().replace("/repo/mos-core", os.path.join(REPO, "mos-core")))
         cmd = ["cargo", "build", "--offline", "-q"]
         for b in bins or []:
             cmd += ["--bin", b]
